@@ -108,6 +108,12 @@ def parse(section):
 
 def impl_oracles(progs, d):
     """property-level checks on the implementation's own output. returns (prop, message) or None"""
+    for l in d["notes"]:
+        if "waitfor-duration-altered" in l:
+            return "C07", "waitFor handed the condition variable %s ns instead of the caller's 1500000 ns: it gives up before (or after) its time-out" % l.split()[-1]
+    for l in d["steps"]:
+        if "peek-copy-unlocked" in l:
+            return "C06", "peekEvent copied the queued event while the queue mutex was not held: another thread can take / recycle that slot in between (thread %s)" % l.split()[1]
     n_enq_done = sum(1 for t, p in enumerate(progs) for i, c in enumerate(p) if c == "enq" and i < len(d["rets"].get(t, [])))
     ids = [c[0] for c in d["consumed"]]
     if len(set(ids)) != len(ids):
